@@ -7,8 +7,13 @@ pub mod c02;
 pub mod c03;
 pub mod c04;
 pub mod c05;
+pub mod c06;
+pub mod c07;
 pub mod c08;
 pub mod c09;
+pub mod c10;
+pub mod c11;
+pub mod c17;
 
 pub struct PropDef {
     pub id: &'static str,
@@ -19,7 +24,7 @@ pub struct PropDef {
     pub subs: Vec<Box<dyn SubCheck>>,
 }
 
-pub const ALL: [&str; 7] = ["C01", "C02", "C03", "C04", "C05", "C08", "C09"];
+pub const ALL: [&str; 12] = ["C01", "C02", "C03", "C04", "C05", "C06", "C07", "C08", "C09", "C10", "C11", "C17"];
 
 pub fn get(id: &str, ctx: &Ctx) -> Option<PropDef> {
     match id {
@@ -28,8 +33,13 @@ pub fn get(id: &str, ctx: &Ctx) -> Option<PropDef> {
         "C03" => Some(c03::def(ctx)),
         "C04" => Some(c04::def(ctx)),
         "C05" => Some(c05::def(ctx)),
+        "C06" => Some(c06::def(ctx)),
+        "C07" => Some(c07::def(ctx)),
         "C08" => Some(c08::def(ctx)),
         "C09" => Some(c09::def(ctx)),
+        "C10" => Some(c10::def(ctx)),
+        "C11" => Some(c11::def(ctx)),
+        "C17" => Some(c17::def(ctx)),
         _ => None,
     }
 }
